@@ -28,6 +28,7 @@ func main() {
 	groups = append(groups,
 		vlib.Group{Name: "laplacian-self-edge", Gen: genLaplacianSelfEdge},
 		vlib.Group{Name: "negative-weight", Gen: genNegativeWeight},
+		vlib.Group{Name: "lazy-iterators", Gen: genLazyIterators},
 		vlib.Group{Name: "profile", Gen: genProfile},
 		vlib.Group{Name: "profile-multiplex", Gen: genProfileMultiplex},
 		vlib.Group{Name: "expanded-chain", Gen: genExpandedNil})
